@@ -120,8 +120,12 @@ def add_all_helpers():
     fmt = util.Scope(_newlibrary.fmtdict)
     add_external_helpers()
     add_capsule_helper()
+    # An enum's typemap is a clone of int and shares its flat_name:
+    # create the helpers once per flat_name, for the native type itself.
+    done = set()
     for ntypemap in typemap.get_global_types().values():
-        if ntypemap.sgroup == "native":
+        if ntypemap.sgroup == "native" and ntypemap.flat_name not in done:
+            done.add(ntypemap.flat_name)
             add_copy_array_helper(fmt, ntypemap)
             add_to_PyList_helper(fmt, ntypemap)
             add_to_PyList_helper_vector(fmt, ntypemap)
